@@ -77,7 +77,14 @@ def run(req):
         out["exc"] = type(e).__name__
         out["compile"] = True
         return out
-    g = {"__name__": "__main__", "__builtins__": __builtins__}
+    # the program runs as the module __main__ of its interpreter: a module object registered under that name,
+    # so that "import __main__" from an imported module finds the running program
+    import types
+    mainmod = types.ModuleType("__main__")
+    g = mainmod.__dict__
+    g["__builtins__"] = __builtins__
+    saved_main = sys.modules.get("__main__")
+    sys.modules["__main__"] = mainmod
     buf = io.StringIO()
     saved_path = list(sys.path)
     saved_argv = list(sys.argv)
@@ -104,6 +111,8 @@ def run(req):
     finally:
         signal.alarm(0)
         sys.stdout = _real_stdout
+        if saved_main is not None:
+            sys.modules["__main__"] = saved_main
         sys.path[:] = saved_path
         sys.argv = saved_argv
         for m in list(sys.modules):
